@@ -175,6 +175,8 @@ def run(rep, prog, tier):
         try:
             ev = S.SymEval(prog, kfn, lazy_scalars=True)
             v = ev.ev(rvalue)
+            if not (isinstance(v, S.Tup) and len(v.items) == 2):
+                raise S.Decline("result #%d of the kernel is not a (scalar, vec3) pair this checker can evaluate" % (i + 1))
             d2, b = v.items[0], ev.record_of(v.items[1])
             W = Weights(ev, extra_pos={p["name"] for p in kfn["params"]})
             ws = [W.weights(d2)] + [W.weights(x) for x in b.f.values()]
